@@ -140,16 +140,25 @@ Definition from_pclaims (k : pclaims) : res pdecoded perr :=
       end
     end
   end.
+(* the presentation claims hold Option<IssuanceDateClaims> flattened: when iat or nbf occurs twice the inner
+   record fails to parse and serde yields None for the whole option instead of an error *)
+Definition absorb_issuance (iat nbf : option Z) (cu : custom) : option Z * option Z * custom :=
+  match absorb iat N_IAT cu with
+  | None => (None, None, cu_del (cu_del cu N_IAT) N_NBF)
+  | Some (ia, cu2) => match absorb nbf N_NBF cu2 with
+                      | None => (None, None, cu_del (cu_del cu N_IAT) N_NBF)
+                      | Some (nb, cu3) => (ia, nb, cu3)
+                      end
+  end.
 Definition preparse (k : pclaims) (cu : custom) : option (pclaims * custom) :=
   match cu_get cu N_ISS, cu_get cu N_VP with
   | None, None =>
     match absorb (pk_exp k) N_EXP cu with None => None | Some (e, cu1) =>
-    match absorb (pk_iat k) N_IAT cu1 with None => None | Some (ia, cu2) =>
-    match absorb (pk_nbf k) N_NBF cu2 with None => None | Some (nb, cu3) =>
+    match absorb_issuance (pk_iat k) (pk_nbf k) cu1 with (ia, nb, cu3) =>
     match absorb (pk_jti k) N_JTI cu3 with None => None | Some (jt, cu4) =>
     match absorb (pk_aud k) N_AUD cu4 with None => None | Some (au, cu5) =>
       Some ({| pk_exp := e; pk_iss := pk_iss k; pk_iat := ia; pk_nbf := nb; pk_jti := jt; pk_aud := au; pk_vp := pk_vp k |}, cu5)
-    end end end end end
+    end end end end
   | _, _ => None
   end.
 Definition pres_registered (n : Z) : bool := ((1 <=? n) && (n <=? 5)) || (n =? N_AUD) || (n =? N_VP).
